@@ -433,6 +433,8 @@ def _run(prop, tier, seed, replay, workdir, log, t0):
         gen_tier = tier
         cases = list(prop.generate(seed, tier))
 
+    unrepresentable = {}
+
     def observe_all(cs):
         obs = []
         for c in cs:
@@ -443,9 +445,22 @@ def _run(prop, tier, seed, replay, workdir, log, t0):
         obs = observe_all(cs)
         if not ok_corr:
             return obs, None
-        terms = [prop.encode(c, o) for c, o in zip(cs, obs)]
-        codes = eval_shards(corr_module, prop.CASE_TYPE, terms, workdir,
-                            extra_imports=getattr(prop, 'EXTRA_IMPORTS', ''))
+        terms, idx = [], []
+        codes = [None] * len(cs)
+        for k, (c, o) in enumerate(zip(cs, obs)):
+            try:
+                terms.append(prop.encode(c, o))
+                idx.append(k)
+            except Exception as ex:
+                # what the implementation did cannot even be written down in the model's types (an error code that is
+                # not an integer, a message that is not a string, a result that is not a JSON value ...): the typing every
+                # property presupposes is broken on this input -> mismatch + property failure + non-trivial
+                codes[k] = 7
+                unrepresentable[id(c)] = '%s: %s' % (type(ex).__name__, ex)
+        got = eval_shards(corr_module, prop.CASE_TYPE, terms, workdir,
+                          extra_imports=getattr(prop, 'EXTRA_IMPORTS', '')) if terms else []
+        for k, v in zip(idx, got):
+            codes[k] = v
         return obs, codes
 
     obs, codes = evaluate(cases)
@@ -491,8 +506,14 @@ def _run(prop, tier, seed, replay, workdir, log, t0):
             f.write(jdump(payload))
         return p
 
-    show = lambda i: eval_show(corr_module, prop.CASE_TYPE, prop.encode(cases[i], obs[i]), workdir,
-                               extra_imports=getattr(prop, 'EXTRA_IMPORTS', '')) if ok_corr else None
+    def show(i):
+        if not ok_corr:
+            return None
+        try:
+            return eval_show(corr_module, prop.CASE_TYPE, prop.encode(cases[i], obs[i]), workdir,
+                             extra_imports=getattr(prop, 'EXTRA_IMPORTS', ''))
+        except Exception as ex:
+            return 'observation not representable in the model: %r' % (ex,)
 
     if unlisted:
         i0 = unlisted[0]
@@ -500,18 +521,34 @@ def _run(prop, tier, seed, replay, workdir, log, t0):
 
         def still_bad(c):
             o = prop.observe(c)
-            cs = eval_shards(corr_module, prop.CASE_TYPE, [prop.encode(c, o)], workdir,
+            try:
+                t = prop.encode(c, o)
+            except Exception:
+                return id(case0) in unrepresentable
+            if id(case0) in unrepresentable:
+                return False
+            cs = eval_shards(corr_module, prop.CASE_TYPE, [t], workdir,
                              extra_imports=getattr(prop, 'EXTRA_IMPORTS', ''))
             return bool(cs[0] & 2) and (cs[0] >> 3) == (codes[i0] >> 3)
         small = _shrink(prop, case0, still_bad)
         o_small = prop.observe(small)
+        try:
+            model_txt = eval_show(corr_module, prop.CASE_TYPE, prop.encode(small, o_small), workdir,
+                                  extra_imports=getattr(prop, 'EXTRA_IMPORTS', ''))
+            what = 'the Coq predicate ok (the property, as stated in Corr/%s.v) is false on what the implementation did' % pid
+            kind = 'property-failure-on-implementation'
+        except Exception as ex:
+            model_txt = None
+            what = ('the implementation\'s observable behaviour on this input lies outside the types of the formal model '
+                    '(%s: %s): e.g. an error code that is not an integer, a message that is not a string, a value that is not '
+                    'JSON - the well-typedness the property presupposes is violated' % (type(ex).__name__, ex))
+            kind = 'implementation-observation-outside-model-domain'
         p = write_replay('fail', {
-            'property': pid, 'kind': 'property-failure-on-implementation',
+            'property': pid, 'kind': kind,
             'case': small, 'impl_observation': o_small,
-            'model': eval_show(corr_module, prop.CASE_TYPE, prop.encode(small, o_small), workdir,
-                               extra_imports=getattr(prop, 'EXTRA_IMPORTS', '')),
+            'model': model_txt,
             'original_case': case0, 'other_failing_cases': len(unlisted) - 1,
-            'what': 'the Coq predicate ok (the property, as stated in Corr/%s.v) is false on what the implementation did' % pid,
+            'what': what,
         })
         out_lines.append('VIOLATION property=%s replay=%s' % (pid, p))
         violations = len(unlisted)
